@@ -194,7 +194,9 @@ class Run:
         elif k == "policy":
             (self.policy.add if a["reject"] else self.policy.discard)(a["tag"])
         elif k == "svc_stop":
-            ann.stop_announce_service(self.instances[a["inst"]])
+            # either way of naming what to stop: the instance object, or - as SimpleService.stop_announce does - its description
+            inst = self.instances[a["inst"]]
+            ann.stop_announce_service(inst.service if self.executed % 2 else inst)
         elif k == "svc_start":
             ann.announce_service(self.instances[a["inst"]])
         elif k == "lost":
